@@ -46,6 +46,8 @@ type scenario struct {
 	Chunks   []int
 	BufSize  int
 	Entry    string
+	// LazyHandler: the OnIntermediate handler reads only the first half of each control payload.
+	LazyHandler bool
 	// AttachExt attaches a receive extension (wsflate.MessageState) to the Reader although the
 	// state does not say "extended": reserved bits must still be refused by the header check.
 	AttachExt bool
@@ -162,6 +164,15 @@ func runReader(s scenario) error {
 	var ictl [][]byte
 	rd := &wsutil.Reader{Source: src, State: s.state(), MaxFrameSize: s.Limit, Extensions: s.exts()}
 	rd.OnIntermediate = func(h ws.Header, r io.Reader) error {
+		if s.LazyHandler {
+			// a handler may legally ignore (part of) the payload: the reader must skip the rest itself
+			p := make([]byte, h.Length/2)
+			if _, err := io.ReadFull(r, p); err != nil {
+				return fmt.Errorf("harness: intermediate payload: %v", err)
+			}
+			ictl = append(ictl, p)
+			return nil
+		}
 		p, err := readUntil(r, s.BufSize, idle)
 		if err != io.EOF {
 			return fmt.Errorf("harness: intermediate payload: %v", err)
@@ -237,6 +248,9 @@ func runReader(s scenario) error {
 		return fmt.Errorf("%d intermediate control frames handled, %d precede the offending frame", len(ictl), len(wantIctl))
 	}
 	for i := range ictl {
+		if s.LazyHandler {
+			wantIctl[i] = wantIctl[i][:len(wantIctl[i])/2]
+		}
 		if !bytes.Equal(ictl[i], wantIctl[i]) {
 			return fmt.Errorf("intermediate control %d: got %x want %x", i, ictl[i], wantIctl[i])
 		}
@@ -570,6 +584,7 @@ func TestRuleViolation(t *testing.T) {
 		s.Chunks = gen.Chunks(t, "chunks")
 		s.BufSize = rapid.SampledFrom([]int{0, 1, 3, 64}).Draw(t, "bufsize")
 		s.AttachExt = rapid.IntRange(0, 3).Draw(t, "attachExt") == 0
+		s.LazyHandler = rapid.IntRange(0, 3).Draw(t, "lazyHandler") == 0
 		hx.Eval()
 		note(s)
 		if err := run(s); err != nil {
